@@ -55,6 +55,9 @@ type composableRunnable struct {
 
 	isPassthrough bool
 
+	// only set for a compiled graph: validates call options addressed to the nodes of that graph
+	checkOptions func(opts []Option) error
+
 	meta *executorMeta
 
 	// only available when in Graph node
